@@ -109,6 +109,66 @@ CHECKS["C10"] = dict(
          "fixtures it affects.",
     technique="round-trip (parse-render-parse-render) monitor over generated programs")
 
+CHECKS["C05"] = dict(
+    category="exploration", design_ref="DESIGN.md 4 (C05), App. B",
+    text="Runtime monitors over the real lexer, parser and analyzer: token tiling / text equality / character "
+         "boundaries / line and column against an independent reference computed from the source text; the span and "
+         "file id of every identifier reached by a visitor; range, file, boundary and 'covers the spelling the message "
+         "is about' for every label of the planted rule faults (the planter registers the spellings); CLI line:col "
+         "against the reference.",
+    note="Column unit is not fixed by the property: bytes, characters or UTF-16 units are accepted; form feed as a line "
+         "end is not judged; OSCAT description bodies are exempt from text equality (blanked by design) but not from "
+         "tiling.",
+    technique="position oracles (tiling, reference line/col, registered spellings) over generated sources and planted faults")
+CHECKS["C11"] = dict(
+    category="exploration", design_ref="DESIGN.md 4 (C11)",
+    text="Trace monitor on the real `ironplcc lsp --stdio`: every didOpen/didChange must be followed (before a sentinel "
+         "response) by exactly one publishDiagnostics for that URI with that version, whose content must be one of the "
+         "answers freshly started servers give for the same contents (reference taken 3 times) and equal to what "
+         "`ironplcc check` reports for a directory with the same files. Histories over {didOpen, didChange} x 2 URIs x 5 "
+         "texts are enumerated (all 160 000 of length 4 in the thorough tier, a seeded sample of the 8 000 of length 3 "
+         "in the quick tier), plus random histories over generated documents.",
+    note="Fresh-server and CLI references are themselves executions of the system under test (differential / "
+         "metamorphic oracle); a state whose reference is unstable is reported. P0030 carries no file and is ignored.",
+    technique="JSON-RPC trace monitor with fresh-server and CLI differential references over enumerated histories")
+CHECKS["C12"] = dict(
+    category="exploration", design_ref="DESIGN.md 4 (C12)",
+    text="Online trace specification over the stdio frames of the real server under seeded random message sequences "
+         "(length <= 60) mixing valid traffic, empty and double content changes, unimplemented requests and "
+         "notifications, client responses, non-file URIs and hostile documents: exactly one response per request id by "
+         "the shutdown response, none spurious, process alive until exit, status 0 afterwards.",
+    note="'Eventually' is decided in bounded form (answered before the shutdown response; the server is single-threaded "
+         "and in-order). Watchdog firings are inconclusive unless reproduced 3 times. TSan is not used: ironplc shares "
+         "no mutable state with lsp-server's stdio threads.",
+    technique="online JSON-RPC trace-specification monitor over random hostile sessions")
+CHECKS["C13"] = dict(
+    category="exploration", design_ref="DESIGN.md 4 (C13)",
+    text="Every invocation of the real binary in the workload (generated valid / faulty file sets as files, permuted, "
+         "as a directory, with a duplicated argument; missing, dangling, empty inputs) is checked against the contract "
+         "exit 0 <=> OK <=> no coded diagnostic; directory vs file list equivalence; echo / tokenize exit status "
+         "against the in-process parse / tokenize of each file.",
+    note="Sets contain at most one faulty file so that the diagnostics compared between `check dir` and `check files` "
+         "are not subject to the recorded 'first error only' instability (C11).",
+    technique="exit-status / stdout / stderr contract monitor on the real binary")
+CHECKS["C14"] = dict(
+    category="exploration", design_ref="DESIGN.md 4 (C14)",
+    text="Metamorphic monitor across 5 encodings of the same generated text (non-ASCII in comments before code and in "
+         "strings, LF/CRLF) on `check` and `tokenize`; exhaustive byte sweep (256 values x 4 sites x 2 commands) and "
+         "random binary files must give a verdict whose positions lie inside the reference-decoded text and never a "
+         "crash.",
+    note="Reference decoder = BOM sniff, strict UTF-8, else WHATWG windows-1252. valgrind memcheck on the release binary "
+         "is part of the thorough tier only.",
+    technique="cross-encoding metamorphic monitor + exhaustive byte sweep on the real binary")
+CHECKS["C15"] = dict(
+    category="exploration", design_ref="DESIGN.md 4 (C15)",
+    text="The semanticTokens/full answers of the real server for generated documents (random spellings, comments before "
+         "tokens, multi-line / non-ASCII comments, CRLF, after random edit histories, planted invalid characters) are "
+         "decoded with the LSP relative encoding and compared with an independent lexical classifier written from "
+         "Annex B.1: strictly increasing, each range exactly one lexeme, legend entry allowed for the class, every "
+         "identifier and comment present, null for invalid text.",
+    note="Length/character accepted in characters or UTF-16 units; form feed not generated.",
+    technique="decoded-answer oracle against an independent lexical classifier")
+
 NOT_YET = {}
 
 
